@@ -288,6 +288,40 @@ theorem group_levels_cpython :
 /-- non-vacuity of group_partial on the hand-made ladder `s := (n op)* n`: `1+2+3` is read as `(1+2)+3` -/
 example : ladOK sumRules [(['s'], ['o', 'p'])] ['n'] = true := by decide
 
+/-! ## a grouping the shipped grammar gets wrong: `:=` binds tighter than the conditional -/
+
+/-- regexp oracle for the example below, independent of the generated class table: the identifier regexp matches purely
+    alphabetic tokens, every other regexp terminal matches nothing (keywords are excluded by the engine itself) -/
+def alphaRx : Str → Tok → Bool := fun e t => e == ['[','a','-','z','A','-','Z','_',']','\\','w','*'] && t.str.all Char.isAlpha
+
+def wtTok (s : Str) : Tok := ⟨s, 0, ⟨0, 0, 0, 0⟩⟩
+
+/-- the tokens of `( x := a if c else d )` -/
+def walrusTernaryToks : List Tok :=
+  [wtTok ['('], wtTok ['x'], wtTok [':','='], wtTok ['a'], wtTok ['i','f'], wtTok ['c'], wtTok ['e','l','s','e'], wtTok ['d'],
+   wtTok [')'], wtTok ['\n']]
+
+def tvar (c : Char) : TEntry := .tree ['v','a','r'] [.token ['n','a','m','e'] [c]]
+
+/-- CPython reads `x := a if c else d` as `x := (a if c else d)`: the named expression takes a whole `expression` on its right.
+    In the engine's tree language that grouping is `expr_move [x, ternary [a, c, d]]`. -/
+def walrus_ternary_statement : Prop :=
+  (parse (Env.of Generated.pyRules alphaRx) (fuelBound Generated.pyRules 10) [] walrusTernaryToks nEntryC).map Ast.simplify =
+    .ok (.tree nEntryC [.tree ['e','x','p','r','_','m','o','v','e'] [tvar 'x', .tree ['t','e','r','n','a','r','y'] [tvar 'a', tvar 'c', tvar 'd']]])
+
+/-- What the engine model builds on the shipped rules instead: `ternary [expr_move [x, a], c, d]`, i.e. `(x := a) if c else d`
+    (py_gram.lark: `ternary[1] := (expr_move "if" expr_move "else")? expr_move` over `expr_move[1] := (comp_or ":=")? comp_or`). -/
+theorem walrus_ternary_engine :
+    (parse (Env.of Generated.pyRules alphaRx) (fuelBound Generated.pyRules 10) [] walrusTernaryToks nEntryC).map Ast.simplify =
+    .ok (.tree nEntryC [.tree ['t','e','r','n','a','r','y'] [.tree ['e','x','p','r','_','m','o','v','e'] [tvar 'x', tvar 'a'], tvar 'c', tvar 'd']]) := by
+  decide +kernel
+
+/-- Known finding `group:walrus-over-ternary`: the CPython grouping is NOT what the engine returns. -/
+theorem walrus_ternary_counterexample : ¬ walrus_ternary_statement := by
+  unfold walrus_ternary_statement
+  rw [walrus_ternary_engine]
+  decide
+
 /-! ## T5 — error line -/
 
 /-- The line number printed by the summary is `begin_line + 1` of an input token; it names an existing line of the source
